@@ -16,4 +16,9 @@ def jobs(tier):
 
 
 def extra_jobs(tier):
-    return []
+    # competition for one bar's liquidity: an earlier order (possibly unfunded) followed by a funded market sell
+    ps = [dict(plan="pair", depth=2, bp=0, qp=2, liq="vsi", vols=["40", "127.83333333"], namounts=2, fee="none",
+               second="market_sell", vol_limit="25", impact="0"),
+          dict(plan="pair", depth=2, bp=8, qp=2, liq="vsi", vols=["10", "100000"], namounts=3, fee="none",
+               second="market_sell", sides=["buy"])]
+    return hist.jobs_for(PROPS, ps)
